@@ -257,7 +257,24 @@ def dy(rng, k, lo, hi):
 def gen_src_affine(rng):
     sx = rng.choice([1, 1, 2, 0.5, 4, 0.25, 8]) * rng.choice([1, 1, -1])
     sy = rng.choice([1, 1, 2, 0.5, 4, 0.25, 8]) * rng.choice([-1, -1, 1])
-    return Affine.translation(dy(rng, 2, -64, 64), dy(rng, 2, -64, 64)) * Affine.scale(sx, sy)
+    # pixel size magnitudes from ~6e-8 to ~1.3e5 CRS units (a power of two keeps every float operation exact)
+    mag = 2.0 ** rng.choice([0, 0, 0, -24, -20, -17, -13, -10, -7, 7, 10, 14, 17])
+    return Affine.scale(mag) * Affine.translation(dy(rng, 2, -64, 64), dy(rng, 2, -64, 64)) * Affine.scale(sx, sy)
+
+
+RES_CHOICES = [30, 10, 25, 0.00025, 1 / 3, 100, 2.5, 1e-5, 1e-7, 1e-6, 3e-6, 1e-4, 1e-3, 1e3, 1e5]
+
+
+def float_src_affine(rng, res):
+    """pixel -> world for a float-stream source grid of pixel size `res`: origin within a few thousand pixels of a
+    plausible coordinate, so that sub-pixel structure survives in doubles"""
+    if res >= 1:
+        ox, oy = rng.uniform(-1e6, 1e6), rng.uniform(-1e6, 1e6)
+    else:
+        ox, oy = rng.uniform(-170, 100), rng.uniform(-60, 80)
+    if rng.random() < 0.3:
+        ox, oy = res * rng.randint(-3000, 3000), res * rng.randint(-3000, 3000)
+    return Affine.translation(ox, oy) * Affine.scale(res, -res)
 
 
 def gen_M_exact(rng, sshape, dshape):
@@ -298,7 +315,7 @@ def gen_M_exact(rng, sshape, dshape):
     return Affine.translation(tx, ty) * L, kind
 
 
-def gen_M_patched(rng, sshape, dshape):
+def gen_M_patched(rng, sshape, dshape, far=False):
     """exact dst→src transform with a scale that is not a power of two (only the paste path is compared)"""
     sny, snx = sshape
     dny, dnx = dshape
@@ -324,6 +341,9 @@ def gen_M_patched(rng, sshape, dshape):
         k = 1
     tx = k * rng.randint(-dnx - 2, snx // k + 2) + k * res
     ty = k * rng.randint(-dny - 2, sny // k + 2) + (k * res if rng.random() < 0.5 else 0)
+    if far:
+        tx = k * int(10 ** rng.uniform(2, 5)) + k * res
+        ty = k * int(10 ** rng.uniform(2, 5))
     if sgn[0] < 0:
         tx += k * dnx
     if sgn[1] < 0:
@@ -567,7 +587,14 @@ def run(R: Run):
     orig_npt = O.native_pix_transform
     for _ in range(n_patched):
         sshape, dshape = shapes()
-        M, kind = gen_M_patched(rng, sshape, dshape)
+        far = rng.random() < 0.25
+        if far:  # small chip far inside a huge source
+            dshape = (rng.randint(1, 40), rng.randint(1, 40))
+        M, kind = gen_M_patched(rng, sshape, dshape, far)
+        if far:
+            sshape = (int(abs(M.f)) + rng.randint(1, 8) * max(1, int(abs(M.e))) * dshape[0] // 3 + 1,
+                      int(abs(M.c)) + rng.randint(1, 8) * max(1, int(abs(M.a))) * dshape[1] // 3 + 1)
+            kind += "-far"
         ttol = rng.choice([0.05, 0.05, 2**-5, 0.26])
         stol = 2**-10 if kind == "edge" or rng.random() < 0.3 else 1e-3
         src, dst = gb(sshape, Affine.identity()), gb(dshape, M)
@@ -661,9 +688,8 @@ def run(R: Run):
     for _ in range(R.pick(400, 4000)):
         sshape = (rng.randint(1, 200), rng.randint(1, 200))
         dshape = (rng.randint(1, 90), rng.randint(1, 90))
-        res_s = rng.choice([30, 10, 25, 0.00025, 1 / 3, 100, 2.5, 1e-5])
-        S = Affine.translation(rng.uniform(-1e6, 1e6) if res_s > 1 else rng.uniform(-170, 170),
-                               rng.uniform(-1e6, 1e6) if res_s > 1 else rng.uniform(-80, 80)) * Affine.scale(res_s, -res_s)
+        res_s = rng.choice(RES_CHOICES)
+        S = float_src_affine(rng, res_s)
         kind = rng.choice(["shift", "subpix", "frac", "int", "rot", "mirror"])
         k = {"shift": 1, "subpix": 1, "mirror": 1, "rot": rng.choice([1, 0.7, 2.3]), "frac": rng.choice([0.3, 0.77, 1.5, 2.8, 3.3, 7.1]),
              "int": rng.choice([2, 3, 4, 5, 10])}[kind]
@@ -699,9 +725,8 @@ def run(R: Run):
         N1, N2 = rng.randint(2000, 3200), rng.randint(2000, 3200)
         sshape = (N1, rng.randint(2000, 3200))
         dshape = (N2, rng.randint(2000, 3200)) if rng.random() < 0.7 else (rng.randint(300, 900), rng.randint(2000, 3200))
-        res_s = rng.choice([10, 30, 0.00025, 1.0])
-        S = Affine.translation(rng.uniform(-1e6, 1e6) if res_s >= 1 else rng.uniform(-170, 100),
-                               rng.uniform(-1e6, 1e6) if res_s >= 1 else rng.uniform(-60, 80)) * Affine.scale(res_s, -res_s)
+        res_s = rng.choice([10, 30, 0.00025, 1.0, 1e-5, 1e-7, 1e3, 1e5])
+        S = float_src_affine(rng, res_s)
         th = rng.choice([1, -1]) * 10 ** rng.uniform(-12, -2)
         kind = rng.choice(["rot", "rot", "shear-x", "shear-y"])
         L = {"rot": Affine(math.cos(th), -math.sin(th), 0, math.sin(th), math.cos(th), 0), "shear-x": Affine(1, th, 0, 0, 1, 0),
@@ -737,9 +762,17 @@ def run(R: Run):
         dshape = (rng.randint(4, 50), rng.randint(4, 50))
         sg = (rng.choice([1, 1, -1]), rng.choice([1, 1, -1]))
         rt = ttol * rng.choice([0, 0.5, 0.9, 1.1, 3]) * rng.choice([1, -1])
-        tx = k * (rng.randint(-dshape[1], sshape[1] // k) + rt) + (k * dshape[1] if sg[0] < 0 else 0)
-        ty = k * (rng.randint(-dshape[0], sshape[0] // k) + rt / 2) + (k * dshape[0] if sg[1] < 0 else 0)
-        S = gen_src_affine(rng) if rng.random() < 0.5 else Affine.identity()
+        ox, oy = rng.randint(-dshape[1], sshape[1] // k), rng.randint(-dshape[0], sshape[0] // k)
+        if rng.random() < 0.45:  # chips far from the origin of a large source: 1e2 .. 1e5 overview pixels, both axes
+            dlt = stol * rng.choice([0.9, 0.4, 0.1, 1e-3, 0]) * rng.choice([1, -1]) if stol >= 1e-3 else dlt
+            dlt2 = dlt
+            ox, oy = int(10 ** rng.uniform(2, 5)), int(10 ** rng.uniform(2, 5))
+            sshape = (k * (oy + rng.randint(dshape[0] // 2, 2 * dshape[0])), k * (ox + rng.randint(dshape[1] // 2, 2 * dshape[1])))
+            rt = ttol * rng.choice([0, 0.3, 0.6]) * rng.choice([1, -1])
+        tx = k * (ox + rt) + (k * dshape[1] if sg[0] < 0 else 0)
+        ty = k * (oy + rt / 2) + (k * dshape[0] if sg[1] < 0 else 0)
+        S = gen_src_affine(rng) if rng.random() < 0.4 else (float_src_affine(rng, rng.choice(RES_CHOICES)) if rng.random() < 0.6
+                                                          else Affine.identity())
         D = S * Affine((k + dlt) * sg[0], 0, tx, 0, (k + dlt2) * sg[1], ty)
         src, dst = gb(sshape, S), gb(dshape, D)
         case = {"fn": "compute_reproject_roi", "src_shape": sshape, "dst_shape": dshape, "src_affine": list(S)[:6],
